@@ -488,7 +488,7 @@ func runC01(c *core.Ctx) {
 
 	// ---- R7 (shared with C10-R1): the queued packet is a private copy, so it stays intact until written
 	c.Rule("R7", "only fresh pool copies enter the write queue (payload whole and unmodified until written)", 2)
-	importObligations(c, runC10, "R7", func(o *core.Obligation) bool { return o.Rule == "R1" || o.Rule == "R3" })
+	importObligations(c, runC10, "R7", func(o *core.Obligation) bool { return o.Rule == "R1" || o.Rule == "R3" || o.Rule == "R6" })
 
 	// ---- R6: every blocking enqueue select offers the same kinds of cases, and so does every non-blocking
 	// one, wherever they live (one function with both modes, or one function per mode)
